@@ -1,5 +1,6 @@
 import NgoVerif.Meta.Cover
 import NgoVerif.Meta.M4
+import NgoVerif.Model.Order
 /-!
 # C20 — generated domain and order predicates describe the real domain
 
@@ -26,5 +27,46 @@ theorem C20_rules_conservative {α : Type} (P : HT.Prog α) (D : HT.RDefs α) (h
     (T : HT.Interp α) (hT : HT.Stable P T) (hno : ∀ a, D.A a → ¬ T a) :
     HT.Stable (HT.Union P D.prog) (HT.rext D T) :=
   HT.rdef_ext_sound P D hP T hT hno
+
+
+/-- **the executable specification is the covering relation** of the reported domain values, whatever their order and
+multiplicity: this is what the `__next_…` extension of every answer set is compared with -/
+theorem C20_order_spec_next (l : List Int) (a b : Int) :
+    (a, b) ∈ (orderSpec l).2.2 ↔ a ∈ l ∧ b ∈ l ∧ a < b ∧ ∀ c ∈ l, ¬ (a < c ∧ c < b) := by
+  simp only [orderSpec]
+  rw [Cover.consecutive_cover _ (sorted_sortInts l)]
+  simp only [mem_sortInts]
+
+/-- … its first component is the least element … -/
+theorem C20_order_spec_min (l : List Int) (m : Int) (h : (orderSpec l).1 = some m) : m ∈ l ∧ ∀ c ∈ l, m ≤ c := by
+  simp only [orderSpec] at h
+  cases hs : sortInts l with
+  | nil => rw [hs] at h; simp at h
+  | cons x xs =>
+    rw [hs] at h
+    simp only [List.head?_cons, Option.some.injEq] at h
+    subst h
+    have hsorted := sorted_sortInts l
+    rw [hs] at hsorted
+    refine ⟨(mem_sortInts x l).mp (by rw [hs]; exact List.mem_cons_self), ?_⟩
+    intro c hc
+    have : c ∈ x :: xs := by rw [← hs]; exact (mem_sortInts c l).mpr hc
+    exact Cover.head_least x xs hsorted c this
+
+/-- … and its second the greatest -/
+theorem C20_order_spec_max (l : List Int) (m : Int) (h : (orderSpec l).2.1 = some m) : m ∈ l ∧ ∀ c ∈ l, c ≤ m := by
+  simp only [orderSpec] at h
+  have hne : sortInts l ≠ [] := by
+    intro hnil; rw [hnil] at h; simp at h
+  have hlast : (sortInts l).getLast hne = m := by
+    rw [List.getLast?_eq_some_getLast hne] at h
+    exact Option.some.inj h
+  refine ⟨?_, ?_⟩
+  · rw [← mem_sortInts, ← hlast]; exact List.getLast_mem hne
+  · intro c hc
+    rw [← hlast]
+    exact Cover.last_greatest _ hne (sorted_sortInts l) c ((mem_sortInts c l).mpr hc)
+
+example : orderSpec [5, 1, 3, 3, -2] = (some (-2), some 5, [(-2, 1), (1, 3), (3, 5)]) := by decide
 
 end NgoVerif
